@@ -259,7 +259,7 @@ class Block:
         while parse_transactions and raw.tell() < txs_data_size:
             if limit != 0 and len(transactions) >= limit:
                 break
-            t = Transaction.parse_bytesio(raw, strict=False, index=index)
+            t = Transaction.parse_bytesio(raw, strict=False, index=index, network=network)
             transactions.append(t)
             index += 1
             # TODO: verify transactions, need input value from previous txs
